@@ -194,6 +194,13 @@ def LSnap.remap (mp : List (Nat × Nat)) (s : LSnap) : LSnap :=
   { g := s.g.map fun p => (mapId mp p.1, p.2.map fun q => (mapId mp q.1, q.2))
     rings := s.rings.map fun p => (mapId mp p.1, p.2.map (mapId mp)), ringsBad := s.ringsBad }
 
+/-- labels of a disjoint union: each part keeps the labels it had (what they were computed from is the concatenation) -/
+def LSnap.merge (a b : LSnap) : LSnap := ⟨a.g ++ b.g, a.rings ++ b.rings, a.ringsBad || b.ringsBad⟩
+
+def mergeLabels : Option LSnap → Option LSnap → Option LSnap
+  | some a, some b => some (a.merge b)
+  | _, _ => none
+
 /-! ## inlining the regenerated event lists -/
 
 def resolveFlag (penv : List (String × Bool)) : Flag → Flag
@@ -291,7 +298,7 @@ structure Ctx where
   removed : List Nat := []           -- atoms discarded from `_changed`
   editMol : Option Mol := none       -- result of the raw graph edit (guards already passed)
   editMap : Option (List (Nat × Nat)) := none  -- remap: per-atom attributes travel with their atom
-  editExtra : Option Core := none    -- union: per-atom attributes of the atoms coming from the other graph
+  editExtra : Option Core := none    -- union: per-atom attributes (Vector, hydrogens, labels) of the atoms coming from the other graph
   obs : List String := []            -- `__dict__` keys observed after the operation
   deriving Inhabited
 
@@ -326,9 +333,10 @@ def applyEdit (cx : Ctx) (c : Cfg) : Cfg :=
     let (xy, hs, labels) := match cx.editMap with
       | some mp => (remapKeys mp o.xy, remapKeys mp o.hs, o.labels.map (LSnap.remap mp))
       | none => (o.xy, o.hs, o.labels)
-    let (xy, hs) := match cx.editExtra with
-      | some ex => (xy ++ ex.xy, hs ++ ex.hs)
-      | none => (xy, hs)
+    -- union: the atoms coming from the other graph bring their Vector, hydrogen count and labels with them
+    let (xy, hs, labels) := match cx.editExtra with
+      | some ex => (xy ++ ex.xy, hs ++ ex.hs, mergeLabels labels ex.labels)
+      | none => (xy, hs, labels)
     -- new atoms get a fresh Vector; deleted atoms drop their per-atom data
     let newIds := ids.filter fun n => !(xy.any (·.1 == n))
     let xy' := (xy.filter fun p => ids.contains p.1) ++ newIds.zipIdx.map fun p => (p.1, c.vecs.length + p.2)
@@ -596,11 +604,13 @@ def step (T : Tables) (w : World) (op : Op) (obs : List String) : Out :=
         let (oc, vecs1) := copyObj T other w.vecs false false
         let mp := if overlap then unionMap o.mol other.mol else []
         let omol : Mol := ⟨remapKeys mp oc.mol.atoms, oc.mol.adj.map fun q => (mapId mp q.1, q.2.map fun kb => (mapId mp kb.1, kb.2))⟩
-        let extra : Core := { oc.toCore with mol := omol, xy := remapKeys mp oc.xy, hs := remapKeys mp oc.hs }
+        let extra : Core := { oc.toCore with mol := omol, xy := remapKeys mp oc.xy, hs := remapKeys mp oc.hs,
+                                             labels := oc.labels.map (LSnap.remap mp) }
         let merged (m : Mol) : Mol := ⟨m.atoms ++ omol.atoms, m.adj ++ omol.adj⟩
         if cp then
           let (u, vecs2) := copyObj T o vecs1 false false
-          let u' : Obj := { u with mol := merged u.mol, xy := u.xy ++ extra.xy, hs := u.hs ++ extra.hs }
+          let u' : Obj := { u with mol := merged u.mol, xy := u.xy ++ extra.xy, hs := u.hs ++ extra.hs,
+                                   labels := mergeLabels u.labels extra.labels }
           { w := { objs := w.objs ++ [u'], vecs := vecs2 }, created := some w.objs.length }
         else
           runFn T { w with vecs := vecs1 } i o { editMol := some (merged o.mol), editExtra := some extra, obs := obs }
